@@ -44,7 +44,10 @@ def lib_classes():
 def make(cls_name, classes, msg, code, um, sid, usersub=False):
     if cls_name in classes:
         base = classes[cls_name]
-        cls = type('My' + cls_name, (base,), {}) if usersub else base
+        # usersub: False | True (plain subclass) | 'empty' (a subclass whose instances are falsy: it defines __len__, as an
+        # exception aggregating causes would, and holds none) — raising is what signals the error, not the object's truth value
+        cls = base if not usersub else type('MyEmpty' + cls_name, (base,), {'__len__': lambda self: 0}) if usersub == 'empty' \
+            else type('My' + cls_name, (base,), {})
         if cls_name == 'CreditsError':
             return cls(code, msg, um)
         if cls_name == 'ConflictingSessionError':
@@ -52,6 +55,8 @@ def make(cls_name, classes, msg, code, um, sid, usersub=False):
         return cls(msg)
     if cls_name == 'UserDefined':
         return type('UserDefined', (Exception,), {})(msg)
+    if cls_name == 'UserDefinedEmpty':
+        return type('UserDefinedEmpty', (Exception,), {'__bool__': lambda self: False})(msg)
     return {'RuntimeError': RuntimeError, 'ValueError': ValueError, 'KeyError': KeyError}[cls_name](msg)
 
 
@@ -117,7 +122,8 @@ def run(ctx, res):
     res.exhaustive_note = 'the (method, exception class) matrix is enumerated completely; payloads are sampled'
     reps = 3 if ctx.tier == 'quick' else 150
     cases = []
-    allcls = [(c, False) for c in LIB] + [(c, False) for c in ('RuntimeError', 'ValueError', 'KeyError', 'UserDefined')] + [(c, True) for c in LIB]
+    allcls = [(c, False) for c in LIB] + [(c, False) for c in ('RuntimeError', 'ValueError', 'KeyError', 'UserDefined', 'UserDefinedEmpty')] + \
+        [(c, True) for c in LIB] + [(c, 'empty') for c in LIB]
     for meth in METHODS:
         for cls_name, usersub in allcls:
             for k in range(reps):
@@ -139,7 +145,7 @@ def run(ctx, res):
     dec_lines = []
     for (meth, cls_name, usersub, msg, code, um, sid), e, impl, m in zip(cases, excs, impls, outs):
         res.evaluations += 1
-        case = {'method': meth, 'class': ('My' if usersub else '') + cls_name, 'msg': msg, 'code': code, 'user_msg': um, 'session': sid}
+        case = {'method': meth, 'class': ('MyEmpty' if usersub == 'empty' else 'My' if usersub else '') + cls_name, 'msg': msg, 'code': code, 'user_msg': um, 'session': sid}
         res.count('%s' % ('usersub' if usersub else ('lib' if cls_name in LIB else 'foreign')))
         if m != impl:
             res.disagreements.append({'case': case, 'model': sx.dumps(m)[:500], 'impl': sx.dumps(impl)[:500], 'relation': 'Writers.error_reply = write_*(exception=e)'})
@@ -371,6 +377,8 @@ def replay(ctx, data):
     usersub = name.startswith('My') and name[2:] in LIB
     if usersub:
         name = name[2:]
+    elif name.startswith('MyEmpty') and name[7:] in LIB:
+        usersub, name = 'empty', name[7:]
     e = make(name, classes, c.get('msg') or '', c.get('code') or 0, c.get('user_msg'), c.get('session'), usersub)
     try:
         line = writer(c['method'])(e)
